@@ -343,6 +343,14 @@ def reshape(x, shape, merge_chunks=True, limit=None):
 
     meta = meta_from_array(x, len(shape))
 
+    if x.size == 0 and x.npartitions > 1:
+        # The merge/split logic below multiplies dimension sizes and therefore
+        # cannot tell apart the dimensions of an empty array. An empty array
+        # holds no data, so there is nothing to move either.
+        from dask.array.creation import empty_like
+
+        return empty_like(x, shape=shape, chunks=tuple((d,) for d in shape))
+
     name = "reshape-" + tokenize(x, shape)
 
     if x.npartitions == 1:
